@@ -74,16 +74,19 @@ var trustedBase = []string{
 // TrustedBase is stated in every evidence file.
 func TrustedBase() []string { return trustedBase }
 
-var regRe = regexp.MustCompile(`(%|&?local:)t[0-9]+`)
+var regRe = regexp.MustCompile(`(%|&?local:|\?)t[0-9]+`)
 
 // stable rewrites SSA register names inside an access path into position-free descriptions of the producing
 // instruction, so that obligation keys survive unrelated edits of the function.
 func (c *Ctx) stable(fn *ssa.Function, path string) string {
-	if !strings.Contains(path, "%t") && !strings.Contains(path, "local:t") {
+	if !strings.Contains(path, "%t") && !strings.Contains(path, "local:t") && !strings.Contains(path, "?t") {
 		return path
 	}
 	return regRe.ReplaceAllStringFunc(path, func(reg string) string {
 		name := reg[strings.LastIndex(reg, "t"):]
+		if strings.HasPrefix(reg, "?") {
+			return "?"
+		}
 		if strings.Contains(reg, "local:") {
 			for _, b := range fn.Blocks {
 				for _, in := range b.Instrs {
